@@ -7,6 +7,9 @@ from mc.runner import Stats
 
 ID = "C12"
 LEVEL = "exploration"
+LEVEL_TEXT = ("bounded-exhaustive: all trigger sets up to n, all behaviours and all Deferred firing orders are executed on a real "
+              "ReactorBase; removals/duplicate registrations are enumerated up to B per execution; nothing is sampled")
+LEVEL_NOTE = "the reactor is never run (no I/O, no threads); the logging failure handler and Deferred/DeferredList are trusted"
 TECHNIQUE = "stateless exhaustive enumeration (mc.choice), removals deviation-bounded, lock-step list reference"
 RULE = ("for n <= N triggers: every phase assignment (before/during/after)^n x every behaviour per trigger {return None, raise, "
         "return unfired Deferred, and for before-triggers also return an already-fired / already-failed Deferred} x every "
